@@ -131,8 +131,18 @@ func loadFile(sys fs.FS, fname string) (pkgList, error) {
 }
 
 func checkConstraint(s string) (bool, error) {
-	line := strings.Split(strings.TrimSpace(s), "\n")[0]
-	if !constraint.IsGoBuild(line) {
+	line := ""
+	for _, l := range strings.Split(s, "\n") { // the constraint may follow blank lines and other line comments
+		l = strings.TrimSpace(l)
+		if constraint.IsGoBuild(l) {
+			line = l
+			break
+		}
+		if l != "" && !strings.HasPrefix(l, "//") {
+			break
+		}
+	}
+	if line == "" {
 		return true, nil
 	}
 	expr, err := constraint.Parse(line)
